@@ -56,6 +56,19 @@ func (g *vfGen) genC11() {
 			g.emit(vfOp("cs", "plain", append(append([]byte{}, bom...), tail...)))
 		}
 	}
+	// texts longer than the default limit whose first non-ASCII / non-UTF-8 / C1 byte lies beyond byte 3072,
+	// examined with no limit, a larger limit, and limits around that byte
+	for k := 0; k < g.pick(12, 300); k++ {
+		n := 3300 + g.intn(5000)
+		txt := g.textBytes(n)
+		pos := 3073 + g.intn(n-3100)
+		for _, late := range [][]byte{{0x85}, {0xE9}, {0xFF}, {0xC3, 0xA9}, {0xE2, 0x82, 0xAC}, {0x93, 'q', 0x94}, {0xC3}} {
+			c := append(append(append([]byte{}, txt[:pos]...), late...), txt[pos:]...)
+			for _, lim := range []int{0, len(c) + 1, 8192, pos + len(late), pos, 3072} {
+				g.emit(vfOp("walk", c, lim))
+			}
+		}
+	}
 	// random byte-class strings beyond the exhaustive length
 	classes := []byte{'a', ' ', '\n', 0x1B, 0x7F, 0x85, 0x90, 0xA0, 0xBF, 0xC2, 0xC3, 0xDF, 0xE0, 0xE2, 0xED, 0xEF, 0xF0, 0xF4, 0xF5, 0xFF, 0xC0, 0x80}
 	for i := 0; i < g.pick(20000, 600000); i++ {
